@@ -126,10 +126,11 @@ def install():
         c.ev('exec_begin', str(self.id), before)
         c.dispatch('order_exec_begin', self, before)
         try:
-            ORIG['Order.execute'](self, silent)
+            r = ORIG['Order.execute'](self, silent)
         finally:
             c.ev('exec_end', str(self.id), self.status, None if self.executed_at is None else int(self.executed_at))
         c.dispatch('order_exec_end', self, before)
+        return r
 
     def order_cancel(self, silent=False, source=''):
         c = C.cur()
@@ -137,10 +138,11 @@ def install():
             return ORIG['Order.cancel'](self, silent, source)
         before = self.status
         c.dispatch('order_cancel_begin', self, before)
-        ORIG['Order.cancel'](self, silent, source)
+        r = ORIG['Order.cancel'](self, silent, source)
         c.ev('cancel', str(self.id), before, self.status,
              None if self.canceled_at is None else int(self.canceled_at))
         c.dispatch('order_cancel_end', self, before)
+        return r
 
     Order.__init__ = order_init
     Order.execute = order_execute
@@ -194,10 +196,11 @@ def install():
     ORIG['update_active_orders'] = OrdersState.update_active_orders
 
     def update_active_orders(self, exchange, symbol):
-        ORIG['update_active_orders'](self, exchange, symbol)
+        r = ORIG['update_active_orders'](self, exchange, symbol)
         c = C.cur()
         if c is not None and c.in_session:
             c.dispatch('pruned', self, exchange, symbol)
+        return r
 
     OrdersState.update_active_orders = update_active_orders
 
@@ -215,8 +218,9 @@ def install():
                 c.horizon[symbol] = ts
                 if ts > c.max_horizon:
                     c.max_horizon = ts
-        ORIG['add_candle'](self, candle, exchange, symbol, timeframe, *a, **kw)
+        r = ORIG['add_candle'](self, candle, exchange, symbol, timeframe, *a, **kw)
         c.dispatch('fed', self, exchange, symbol, timeframe)
+        return r
 
     def add_multiple_1m_candles(self, candles, exchange, symbol):
         c = C.cur()
@@ -227,8 +231,9 @@ def install():
             c.horizon[symbol] = ts
             if ts > c.max_horizon:
                 c.max_horizon = ts
-        ORIG['add_multiple_1m_candles'](self, candles, exchange, symbol)
+        r = ORIG['add_multiple_1m_candles'](self, candles, exchange, symbol)
         c.dispatch('fed', self, exchange, symbol, '1m')
+        return r
 
     CandlesState.add_candle = add_candle
     CandlesState.add_multiple_1m_candles = add_multiple_1m_candles
@@ -247,9 +252,10 @@ def install():
         c.scratch['budget'] = 0
         c.ev('match_begin', 'step', symbol, C.fnum(real_candle[0]))
         c.dispatch('match_begin', 'step', exchange, symbol, real_candle)
-        ORIG['bm._simulate_price_change_effect'](real_candle, exchange, symbol)
+        r = ORIG['bm._simulate_price_change_effect'](real_candle, exchange, symbol)
         c.dispatch('match_end', 'step', exchange, symbol, real_candle)
         c.ev('match_end', 'step', symbol)
+        return r
 
     def sim_fast(short_candles, exchange, symbol):
         c = C.cur()
@@ -276,27 +282,30 @@ def install():
         from jesse.store import store
         n0 = store.app.total_liquidations
         c.dispatch('liq_begin', exchange, symbol, candle)
-        ORIG['bm._check_for_liquidations'](candle, exchange, symbol)
+        r = ORIG['bm._check_for_liquidations'](candle, exchange, symbol)
         if store.app.total_liquidations != n0:
             c.count('liquidations_seen')
             c.ev('liquidation', symbol, int(store.app.time))
         c.dispatch('liq_end', exchange, symbol, candle)
+        return r
 
     def exec_market():
         c = C.cur()
         if c is None or not c.in_session:
             return ORIG['bm._execute_market_orders']()
         c.dispatch('market_flush_begin')
-        ORIG['bm._execute_market_orders']()
+        r = ORIG['bm._execute_market_orders']()
         c.dispatch('market_flush_end')
+        return r
 
     def exec_routes(candle_index, candles_step):
         c = C.cur()
         if c is None or not c.in_session:
             return ORIG['bm._execute_routes'](candle_index, candles_step)
         c.dispatch('routes_begin', candle_index, candles_step)
-        ORIG['bm._execute_routes'](candle_index, candles_step)
+        r = ORIG['bm._execute_routes'](candle_index, candles_step)
         c.dispatch('routes_end', candle_index, candles_step)
+        return r
 
     def split_candle(candle, price):
         c = C.cur()
@@ -318,11 +327,12 @@ def install():
         c = C.cur()
         if c is None or not c.in_session:
             return ORIG['bm.save_daily_portfolio_balance'](is_initial)
-        ORIG['bm.save_daily_portfolio_balance'](is_initial)
+        r = ORIG['bm.save_daily_portfolio_balance'](is_initial)
         from jesse.store import store
         val = store.app.daily_balance[-1] if store.app.daily_balance else None
         c.ev('daily', bool(is_initial), C.fnum(val), int(store.app.time))
         c.dispatch('daily', is_initial, val)
+        return r
 
     def gen_outputs(*a, **kw):
         c = C.cur()
